@@ -10,7 +10,7 @@ from hypothesis import strategies as st
 from ..core import other_environment_body, SubCheck, Violation, cut, require
 from ..oracles import tables as otab
 from ..rng_script import scripted
-from ..strategies import LAYOUTS
+from ..strategies import LAYOUTS, same_values
 from .c04 import BETA_MAX, BETA_MIN, B_NODES, E_NODES, _taus, beta_st, log_e_st, outside_e, version_st
 
 PROPERTY_ID = "C05"
@@ -97,6 +97,19 @@ def body_pointwise(case):
         pairs_ = [(ks_[i] % 32, ks_[(i + 1) % len(ks_)] % 32) for i in range(len(ks_))] + [(ks_[0] % 32, j) for j in (3, 9, 14, 20, 26)]
         if check_two_switches(lambda: taus.tau_exit_prob(beta, log_e), lambda: other.tau_exit_prob(b_r, e_r), pairs_, f"Taus.tau_exit_prob ({len(beta)} events, table v{version}, {'two objects' if other is not taus else 'one object'})"):
             labels.add("overlapping_calls_two_switches")
+    if case.get("layout") == "column":
+        # (once per such case) the angles as an astropy Quantity in rad / deg / arcmin: honoured or refused, never read as
+        # a bare number of radians
+        from ..strategies import unit_forms
+
+        for uname, q in unit_forms(beta, "rad", ["deg", "arcmin"]):
+            try:
+                pq = np.asarray(getattr(taus.tau_exit_prob(q, log_e), "value", taus.tau_exit_prob(q, log_e)), dtype=np.float64)
+            except Exception:  # noqa: BLE001 - refusing a unit-carrying angle is fine
+                labels.add("angle_quantity_refused")
+                continue
+            require(same_values(pq, p, rtol=1e-12), f"emergence angles given as an astropy Quantity in {uname} are neither honoured nor refused: exit probabilities {pq[:3].tolist()} instead of {p[:3].tolist()}")
+            labels.add("angle_quantity_honoured")
     low = beta < BETA_MIN
     if low.any():
         labels.add("below_min")
